@@ -114,6 +114,37 @@ def run(tier, seed, only=None):
         ck.case((kind, alg, "singular" if ref.defect else "regular", meta["cov"], meta.get("subset"), meta["pattern"]))
         if i < 3 and kind == "adj" and alg == "envelope":
             ck.sample(dict(index=i, meta=meta, A_first_rows=P["A"][:2].tolist(), minx=P["minx"]))
+    # lindep(i): what LocalNetwork::null_space() relies on -- every unknown a solver names must take part in the null
+    # space, and the unknowns it does not name must be linearly independent
+    ld_items, ld_info = [], []
+    for (i, P, ref, kind, alg) in info:
+        if kind == "base" and ref.defect and len(ld_info) < tier_n(tier, 160, 2000):
+            ld_items.append((P, ["NEW base %s" % alg, "X", "LINDEPALL"]))
+            ld_info.append((i, P, ref, alg))
+    for (i, P, ref, alg), r in zip(ld_info, solver.run_scripts(ld_items) if ld_items else []):
+        reps = r["replies"]
+        if r["crash"] is not None or len(reps) < 3 or reps[2][0] != "OK":
+            continue
+        flags = [int(v) for v in reps[2][1][1:]]
+        if len(flags) != ref.n:
+            continue
+        D = [j for j, f in enumerate(flags) if f]
+        part = np.linalg.norm(ref.G, axis=1) if ref.defect else np.zeros(ref.n)
+        wit = dict(seed=seed, index=i, kind="base", alg=alg, meta=P["meta"], flagged=[j + 1 for j in D])
+        ck.case(("lindep", alg, P["meta"]["pattern"], "zero-col" if P["meta"].get("zero_col") else "-"))
+        wrong = [j + 1 for j in D if part[j] < 1e-6]
+        if wrong:
+            ck.violation("base:%s:lindep:names-determined-unknown" % alg,
+                         "lindep() names unknowns %s, which take no part in the null space (defect %d) [case %d]" % (
+                             wrong, ref.defect, i), wit)
+            continue
+        rest = [j for j in range(ref.n) if j not in D]
+        if rest:
+            sv = np.linalg.svd(ref.Aw[:, rest], compute_uv=False)
+            if len(sv) < len(rest) or sv[-1] < 1e-8 * max(sv[0], 1e-300):
+                ck.violation("base:%s:lindep:rest-still-dependent" % alg,
+                             "the unknowns lindep() does not name (%d of %d) are still linearly dependent (defect %d, "
+                             "named %s) [case %d]" % (len(rest), ref.n, ref.defect, [j + 1 for j in D], i), wit)
     if only is None:
         from .. import netlevel
         runner.build("san", targets=["gama-local"])
